@@ -433,6 +433,28 @@ def value_equal(a, b):
         return False
 
 
+def was_read(comp):
+    return comp is not None and any(x is comp for x in Mon.read)
+
+
+def twin_origin(x, r, par, root):
+    """HOW two distinct operations became value-equal on this input (they can only be equal through one shared link instance)"""
+    lx, lr_ = x.relation, r.relation
+    if lx is not lr_:
+        return "value-equal-links-of-different-instances"
+    px, pr = par.get(id(x), root if x is not root else None), par.get(id(r), root if r is not root else None)
+    handed = [p for p in (px, pr) if p is not None and lx is p.relation]
+    # the shared instance is the link of an enclosing composite: decomposed_operations() of that composite hands it down -- if it ran
+    if handed and any(was_read(p) for p in handed):
+        return "after-operations-read"
+    kind, refs = link_refs(lx)
+    if kind == "multi":
+        return "after-unroll(shared-multi-link)"
+    if refs:
+        return "user-shared-link-instance"
+    return "fresh-build(no-read,no-shared-link)"
+
+
 def drops_link(op):
     """unit probe: does this operation's own copy() lose a link whose references are all in the lookup? (sub-circuits are not probed)"""
     if is_comp(op):
@@ -507,6 +529,7 @@ def compare_copy(src, res, pairs, cnt):
         if len(ls) == len(lr):
             for (o, _), (c, _) in zip(ls, lr):
                 M.setdefault(id(o), c)
+    par_s = {id(o): p for o, p in ls}
     idx_s = {id(o): i for i, (o, _) in enumerate(ls)}
     idx_r = {id(c): i for i, (c, _) in enumerate(lr)}
     idx_s[id(src)] = "root"
@@ -595,24 +618,25 @@ def compare_copy(src, res, pairs, cnt):
             for g, r in zip(grefs, refs):
                 x = inv.get(id(g))
                 if g is not M[id(r)] and x is not None and value_equal(x, r):
-                    tw_hit = x
+                    tw_hit = (x, r)
             if tw_hit is None and len(grefs) < len(refs):
                 missing = [r for r in refs if not any(g is M[id(r)] for g in grefs)]
                 for r in missing:
                     for oo, _ in ls:
                         if value_equal(oo, r):
-                            tw_hit = oo
+                            tw_hit = (oo, r)
             if tw_hit is not None:
-                attr = "relation-re-pointed-to-value-equal-twin:" + ("twin-sub-circuits" if is_comp(tw_hit) else "twin-operations")
+                attr = "relation-re-pointed-to-value-equal-twin:" + ("twin-sub-circuits" if is_comp(tw_hit[0]) else "twin-operations") + \
+                    ":" + twin_origin(tw_hit[0], tw_hit[1], par_s, src)
         KK = K if not attr.startswith("relation-re-pointed") else "CircuitCompositeOperation"
         if attr == "relation-not-kept":
             # the transfer lookup is keyed by VALUE: a reference with a value-equal twin anywhere in the copied circuit may have been re-pointed to
             # the twin's copy at another level and then re-linked by add (reference not present in that sub-circuit)
-            twin_of_ref = next((oo for r in refs for oo, _ in ls if value_equal(oo, r)), None)
+            twin_of_ref = next(((oo, r) for r in refs for oo, _ in ls if value_equal(oo, r)), None)
             own_copy_drops = drops_link(o)
             if twin_of_ref is not None and not own_copy_drops:
                 KK, attr = "CircuitCompositeOperation", "relation-re-pointed-to-value-equal-twin:" + \
-                    ("twin-sub-circuits" if is_comp(twin_of_ref) else "twin-operations")
+                    ("twin-sub-circuits" if is_comp(twin_of_ref[0]) else "twin-operations") + ":" + twin_origin(twin_of_ref[0], twin_of_ref[1], par_s, src)
         if attr == "relation-not-kept" and not drops_link(o):
             par = {id(oo): pp for oo, pp in ls}
             if want[0] == "multi" and got[0] == "multi" and got[1:-1] == want[1:-1] and len(grefs) < len(mrefs):
@@ -676,6 +700,8 @@ def compare_copy(src, res, pairs, cnt):
 # Run-time monitors (observation only) around copy() of every operation class and repeat()
 # ------------------------------------------------------------------------------------------------
 class Mon:
+    track = False      # record on which composites decomposed_operations() ran (it hands the composite's link down to relation-less children)
+    read = []          # those composites (objects kept alive)
     active = False
     depth = 0
     cur = None
@@ -687,10 +713,12 @@ class Mon:
 
 def mon_reset(cnt):
     Mon.active, Mon.depth, Mon.cur, Mon.events, Mon.repeats, Mon.cnt, Mon.phase = True, 0, None, [], [], cnt, ""
+    Mon.track, Mon.read = True, []
 
 
 def mon_off():
     Mon.active, Mon.cur, Mon.depth = False, None, 0
+    Mon.track, Mon.read = False, []
 
 
 def _wrap_leaf_copy(cls):
@@ -752,10 +780,18 @@ def _wrap_composite(cls):
             Mon.active = active
         Mon.repeats.append(rec)
         return res
+    orig_decomposed = cls.__dict__["decomposed_operations"]
+
+    def decomposed_operations(self):
+        if Mon.track and not any(x is self for x in Mon.read):
+            Mon.read.append(self)
+        return orig_decomposed(self)
+    decomposed_operations.__wrapped__ = orig_decomposed
     copy.__wrapped__ = orig_copy
     repeat.__wrapped__ = orig_repeat
     setattr(cls, "copy", copy)
     setattr(cls, "repeat", repeat)
+    setattr(cls, "decomposed_operations", decomposed_operations)
 
 
 def install_monitors():
